@@ -24,7 +24,6 @@ contract("JobRunner._run_jobs", file=F,
              "ghost.run_jobs_depth == (len(jobs) if len(jobs) <= PPN() else PPN())",
              "result == Status.GOOD",
          ],
-         exit_ensures=["num_workers == (len(jobs) if len(jobs) <= max_num_workers else max_num_workers)", "max_num_workers == PPN()"],
          ghost_ensures=APP("T_JOBS()"),
          raises={"ExecutionError": {"ensures": [], "frame": False}},
          modifies=["ghost.log", "ghost.run_jobs_depth", "ResourceMonitorLogger.g_x", "ghost.runs", "ghost.collected", "ghost.collected_failed", "ghost.popens", "ghost.rows",
